@@ -239,18 +239,7 @@ def eval_case_inner(ctx, exe, case, status_of, deep=True):
     elif d3 != d2:
         e3 = raw_entities(d3)
         diff = [(k, p) for k in e2 for p in sorted(set(e2[k]) | set(e3.get(k, {}))) if e2[k].get(p) != e3.get(k, {}).get(p)]
-        # update_min_exchange / update_kin_exchange: a tied component whose site total has been scaled to zero is rebuilt from its
-        # formula on the next read, which drops the zero-valued counter-ion entries → one more cycle
-        if diff and all(under_tied(k, p) and "/totals/" in p and float(e2[k].get(p, "0")) == 0.0 for k, p in diff):
-            res["sig"].append(("exchange-on-empty-phase-two-cycles", f"third dump differs from the second: {diff[:4]}"))
-        elif diff and all(under_tied(k, p) and "/totals/" in p for k, p in diff):
-            # update_min/kin_exchange multiplies the tied component by (phase moles × proportion) / (site total) at every read; with the
-            # 14-digit text the factor is 1 ± 1e-14, so the last digit keeps drifting: the text never becomes stationary
-            k, p = diff[0]
-            res["sig"].append(("tied-exchanger-rederived", f"third dump differs from the second (rescaled again): {k} {p}: "
-                               f"{e2[k].get(p)} → {e3.get(k, {}).get(p)}"))
-        else:
-            res["problems"].append(("not-fixed", f"dump text still changes in the second cycle: {diff[:5] or 'layout'}"))
+        res["problems"].append(("not-fixed", f"dump text still changes in the second cycle: {diff[:5] or 'layout'}"))
     # model correspondence: where first and second dump differ, the model must call the key dropped
     rederived = False
     if d2 != d1:
@@ -483,18 +472,9 @@ MIN_CASES = {
         setup="SOLUTION 1\n temp 60\n Na 1\n Cl 1\nEND\nGAS_PHASE 1\n -fixed_volume\n -volume 1\n -temperature 40\n CH4(g) 0.005\n H2O(g) 0.03\n"
               "END\nUSE solution 1\nUSE gas_phase 1\nREACTION 5\n NaCl 1\n 0.0005\nSAVE solution 1\nSAVE gas_phase 1\nEND\n",
         followups=[("use", SEL_GAS + "USE solution 1\nUSE gas_phase 1\nREACTION 9\n HCl 1\n 0.001\nEND\n")]),
-    "copy-constructor-pitzer": dict(db="pitzer.dat", adds="", kinds=[], feat=[], react=False,
-        setup="SOLUTION 1\n Na 1\n Cl 1\nEND\n", followups=[("use", "USE solution 1\nEND\n")]),
     "tied-exchanger-rederived": dict(db="phreeqc.dat", adds="", kinds=["exch", "pp"], feat=["exch:phase-related"], react=True,
         setup=TIED_SETUP,
         followups=[("use", SEL_EX + "USE solution 1\nUSE equilibrium_phases 1\nUSE exchange 1\nREACTION 9\n HCl 1\n 0.0005\nEND\n")]),
-    "exchange-on-empty-phase-two-cycles": dict(db="phreeqc.dat", adds="", kinds=["exch", "pp"], feat=["exch:phase-related"], react=True,
-        setup=TIED_SETUP, followups=[("use", "USE solution 1\nEND\n")]),
-    "raw-text-14-digits": dict(db="phreeqc.dat", adds=graw.RATE_ADDS, kinds=["kin"], feat=["kin:cvode"], react=False,
-        setup="SOLUTION 1\n temp 25\n pH 7\n Na 1.5\n Cl 1.5\nEND\nKINETICS 1\n Calcite\n  -tol 1e-9\n  -m0 0.07971\n  -m 0.2714\n"
-              "  -parms 167000 0.67\n MyRate\n  -formula NaCl 1 H2O 0.1\n  -m0 0.4045\n  -parms 5.859e-06 2 3\n  -tol 1e-8\n"
-              " -steps 500 100 1000\n -cvode true\nEND\n",
-        followups=[("use", SEL_KIN + "USE solution 1\nUSE kinetics 1\nEND\n")]),
 }
 CORPUS = vlib.ROOT / "corpus" / "C10"
 
@@ -556,7 +536,8 @@ def run(ctx):
         c = json.loads(f.read_text())["case"]
         r = eval_case(ctx, exe, c, status_of)
         evals += 1
-        bad = [p for p in r["problems"]] + ([("setup", "corpus case no longer runs")] if not r["judged"] else [])
+        bad = [p for p in r["problems"]] + [(k, t) for k, t in r["sig"] if k not in MIN_CASES] + \
+              ([("setup", "corpus case no longer runs")] if not r["judged"] else [])
         if bad:
             ctx.violation(f"corpus case {f.name}: {bad[0][0]}: {bad[0][1]}", {"case": c, "problem": list(bad[0]), "corpus": f.name})
     ctx.cov["corpus_cases"] = len(corpus)
@@ -713,12 +694,13 @@ MANIFEST = dict(
           "the Lean `failing`); real CParser::find_option on the real vopts vs the model; generated states of every entity kind: dump → fresh "
           "instance → dump → fresh instance → dump (no errors, equal text after ≤1 cycle), follow-up calculations at 1e-7, SOLUTION_MODIFY, "
           "StorageBin / Serializer / copy-constructor (InternalCopy) copies; first-vs-second dump differences must be predicted by the model."),
-    note=("Trusted: gen_raw.py (regex/brace extraction), rawparse.py, harness/ph_raw.cpp, g++. Follow-ups run with "
-          "convergence_tolerance 1e-12; states with KINETICS are compared at 1e-4 (adaptive integrator); a SOLUTION_MODIFY that restores "
-          "totals/H/O/cb is applied to the restored state. Departures with a known signature are routed through ctx.finding: isotope-* "
-          "(4 keys), gascomp-p_read-nan, gas-phase-first-step-lag, copy-constructor-pitzer, raw-text-14-digits-pH, "
-          "exchange-on-empty-phase-two-cycles, exchange-tied-to-phase-followup, nonideal-solid-solution-followup. Partial: print/parse of one value (14 digits) is "
-          "the hypothesis Sys.ValOk, exercised not proved; the record model is flat per class (a nested block is one field whose norm is the "
-          "child's cycle); continuation lines of name/value blocks whose name equals an option (e.g. element La in an exchanger's totals) are "
-          "outside the model; Serialize/Deserialize index sequences are compared dynamically only."),
+    note=("Trusted: gen_raw.py (regex/brace extraction), rawparse.py, harness/ph_raw.cpp, g++. Assumption (Sys.ValOk): a double printed "
+          "with 17 significant digits — the translator demands precision(DBL_DIG + 2) in every dump_raw — is read back bit-exactly "
+          "(IEEE-754 decimal round trip); exercised by comparing the normal restore with the harness's own exact 17-digit restore (B vs "
+          "B17), not proved. Follow-ups run with convergence_tolerance 1e-12. Departures traced to their cause and routed through "
+          "ctx.finding: original-engine-warm-start (exact object copy in a fresh engine differs from the original), "
+          "tied-exchanger-rederived (update_min/kin_exchange rescales tied components whenever RAW input is read). Repaired defects are "
+          "corpus cases (corpus/C10) that must pass. Partial: the record model is flat per class (a nested block is one field whose norm "
+          "is the child's cycle); continuation lines of name/value blocks whose name equals an option (e.g. element La in an exchanger's "
+          "totals) are outside the model; Serialize/Deserialize sequences are compared dynamically only (stream idempotence)."),
 )
